@@ -186,7 +186,7 @@ func c04R1(r *Run, fns []*FuncInfo, entry *FuncInfo) {
 			for i := idx + 1; i < len(blk.Nodes); i++ {
 				n := blk.Nodes[i]
 				if d, ok := n.(*ast.DeferStmt); ok {
-					if c04DeferStops(inf, d, stop.Obj) {
+					if c04DeferStops(inf, d, stop.Obj, fns) {
 						okDefer = true
 					} else {
 						why = "the first deferred call after the spawn does not call " + stop.Name() + " unconditionally"
@@ -214,15 +214,25 @@ func c04R1(r *Run, fns []*FuncInfo, entry *FuncInfo) {
 }
 
 // c04DeferStops: the deferred function calls stop as an unconditional top-level statement (or is the call itself).
-func c04DeferStops(info *types.Info, d *ast.DeferStmt, stop *types.Func) bool {
+func c04DeferStops(info *types.Info, d *ast.DeferStmt, stop *types.Func, fns []*FuncInfo) bool {
 	if callee(info, d.Call) == stop {
 		return true
 	}
-	lit, ok := ast.Unparen(d.Call.Fun).(*ast.FuncLit)
-	if !ok {
+	var body *ast.BlockStmt
+	if lit, ok := ast.Unparen(d.Call.Fun).(*ast.FuncLit); ok {
+		body = lit.Body
+	} else if hf := callee(info, d.Call); hf != nil {
+		// a handler written as a function of the package: `defer p.stopAndRecover(&tree, &err)`
+		for _, h := range fns {
+			if h.Obj == hf {
+				body = h.Decl.Body
+			}
+		}
+	}
+	if body == nil {
 		return false
 	}
-	for _, st := range lit.Body.List {
+	for _, st := range body.List {
 		if es, ok := st.(*ast.ExprStmt); ok {
 			if c, ok := es.X.(*ast.CallExpr); ok && callee(info, c) == stop {
 				return true
